@@ -611,6 +611,7 @@ func runC16(c *Ctx) {
 	c.Extra["initial_state"] = m.stateName[m.initial]
 	c.Extra["reference_transducer"] = "states (mode∈{Unq,UnqEsc,Sq,Dq,DqEsc}, open); Unq: blank/newline → EMIT if open; \\ → UnqEsc; ' → Sq(open); \" → Dq(open); other → push. UnqEsc: newline → Unq (removed, open unchanged); else push, Unq(open). Sq: ' → Unq; else push. Dq: \" → Unq; \\ → DqEsc; else push. DqEsc: \\ or \" → push c; newline → removed; else push \\ then c; → Dq. End of input: pending = open or mode≠Unq; complete = mode=Unq."
 	c.Extra["traces_validated_against_impl"] = 0
+	c.Extra["_model"] = m
 }
 
 func stateSet(m *shellModel, set map[int64]bool) string {
